@@ -2175,6 +2175,12 @@ func opcodeCheckMultiSig(op *ParsedOpcode, t *thread) error {
 	script := t.subScript()
 
 	for _, sigInfo := range signatures {
+		// as in OP_CHECKSIG, signatures and code separators are only removed from the script code
+		// for legacy signatures; a FORKID signature commits to the script code as it stands
+		if n := len(sigInfo.signature); t.hasFlag(scriptflag.EnableSighashForkID) && n > 0 &&
+			sighash.Flag(sigInfo.signature[n-1]).Has(sighash.ForkID) {
+			continue
+		}
 		script = script.removeOpcodeByData(sigInfo.signature)
 		script = script.removeOpcode(bscript.OpCODESEPARATOR)
 	}
